@@ -267,9 +267,12 @@ class Printer:
             self.w("}\n\n")
         for f in prog["funs"]:
             st0 = self.pos
-            self.w("fun %s(" % f["name"])
+            if f.get("method"):
+                self.w("method %s(this: Int" % f["name"])
+            else:
+                self.w("fun %s(" % f["name"])
             for i, (n, b, t) in enumerate(f["params"]):
-                if i:
+                if i or f.get("method"):
                     self.w(", ")
                 self.name(n, b, "def")
                 if self.annotate:
